@@ -13,7 +13,17 @@
                                 mode = ski | skias | ski+stop | skias+stop (key selection, loop bound); o_i = one letter v/n/e per key of hop i ("-" = none):
                                 the result of the uninterpreted `verify` for (key, spec digest i, sig i);
                                 the model hashes with `hash := id`, so a query on any other byte
-                                string than the spec digest is answered `e`
+                                string than the spec digest is answered `e`.  A leading `!` on o_i says that
+                                the signature field of hop i is NOT a strict DER ECDSA-Sig-Value (`wf = false`).
+    validate-sched D K… E <ne> {<L|A><idx> <nops> {+|-}asn:ski:spki…}*ne AT <j_1> … <j_ne> O <mode> <o_0> …
+                                the key table changes during the call: event e (the listed additions /
+                                removals, applied in order) happened after exactly j_e table lookups of the call
+                                had been completed (`-`: never); lookup number k of the call sees the table after
+                                all events with j_e ≤ k (`View`).  `L<idx>`/`A<idx>` is how the harness placed the
+                                event (before lookup idx / at the idx-th allocation); the model only uses AT.
+                                The letters o_i are for the keys the lookup of hop i (number n + i) returns.
+                                Reply: "<code> <j_1> … <j_ne>".
+    queries-sched D K… E … AT … like `queries`, for the keys each hop's own lookup returns
     validate-nonlri D K… / gensig-nonlri D <keyhex>
                                 the entry points with data->nlri == NULL (validateEntry / generateEntry)
     gensig D <keyhex> O <keyok 0|1> <siglen>
@@ -120,10 +130,12 @@ def parseVRes (c : Char) : Option VRes :=
   if c = 'v' then some .valid else if c = 'n' then some .notValid else if c = 'e' then some .error else none
 
 /-- the verify queries of hop i: spec digest, signature, keys by SKI in table order -/
-def hopQueries (d : Data) (T : Table) : List (Nat × List Nat × List Nat × List Key) :=
+def hopQueriesV (d : Data) (V : View) : List (Nat × List Nat × List Nat × List Key) :=
   (List.range d.sigs.length).map fun i =>
     let s := d.sigs[i]!
-    (i, Rfc8205.digest d i, s.sig, searchBySki T s.ski)
+    (i, Rfc8205.digest d i, s.sig, searchBySki (V (d.sigs.length + i)) s.ski)
+
+def hopQueries (d : Data) (T : Table) : List (Nat × List Nat × List Nat × List Key) := hopQueriesV d (fun _ => T)
 
 abbrev Oracle := List ((List Nat × List Nat × List Nat) × VRes)
 
@@ -132,18 +144,90 @@ def oracleVerify (o : Oracle) (spki : List Nat) (h : List Nat) (sig : List Nat) 
   | some e => e.2
   | none => .error
 
-def buildOracle (d : Data) (T : Table) (outs : List String) : Option Oracle := do
-  let qs := hopQueries d T
+/-- the oracle part of a request: verify results per (key, digest, signature), and the signature fields
+    declared not to be strict DER (`!`) -/
+def buildOracle (d : Data) (V : View) (outs : List String) : Option (Oracle × List (List Nat)) := do
+  let qs := hopQueriesV d V
   if qs.length ≠ outs.length then none
   let mut acc : Oracle := []
+  let mut bad : List (List Nat) := []
   for (q, o) in qs.zip outs do
     let (_, dg, sig, keys) := q
+    let (o, isBad) := if o.startsWith "!" then ((o.drop 1).toString, true) else (o, false)
+    if isBad then bad := sig :: bad
     let cs := if o = "-" then [] else o.toList
     if cs.length ≠ keys.length then none
     for (k, c) in keys.zip cs do
       let r ← parseVRes c
       acc := acc ++ [((k.spki, dg, sig), r)]
-  pure acc
+  pure (acc, bad)
+
+/-- `spki_table_add_entry` (an exact duplicate is refused) / `spki_table_remove_entry` on the insertion-ordered list -/
+def tableAdd (T : Table) (k : Key) : Table := if T.contains k then T else T ++ [k]
+def tableRemove (T : Table) (k : Key) : Table := T.erase k
+
+def parseOp (T : Table) (w : String) : Option Table :=
+  if w.startsWith "+" then (parseKey (w.drop 1).toString).map (tableAdd T)
+  else if w.startsWith "-" then (parseKey (w.drop 1).toString).map (tableRemove T)
+  else none
+
+def applyOps : Nat → Table → List String → Option (Table × List String)
+  | 0, T, ws => some (T, ws)
+  | n + 1, T, w :: ws => do
+    let T' ← parseOp T w
+    applyOps n T' ws
+  | _ + 1, _, [] => none
+
+/-- `E <ne> {trigger nops ops…}*ne`: the tables after each event -/
+def parseEvents (T0 : Table) (ws : List String) : Option (List Table × List String) :=
+  match ws with
+  | "E" :: ne :: rest => do
+    let ne ← natLt ne 9
+    let rec go : Nat → Table → List String → List Table → Option (List Table × List String)
+      | 0, _, ws, acc => some (acc.reverse, ws)
+      | n + 1, T, trig :: nops :: ws, acc => do
+        if ¬ (trig.startsWith "L" ∨ trig.startsWith "A") then none
+        let _ ← natLt (trig.drop 1).toString 100000
+        let nops ← natLt nops 17
+        let (T', ws') ← applyOps nops T ws
+        go n T' ws' (T' :: acc)
+      | _ + 1, _, _, _ => none
+    go ne T0 rest []
+  | _ => none
+
+/-- `AT j_1 … j_ne` (a number or `-`) -/
+def parseAt (ne : Nat) (ws : List String) : Option (List (Option Nat) × List String) :=
+  match ws with
+  | "AT" :: rest =>
+    takeN (fun w => if w = "-" then some none else (natLt w 100000).map some) ne rest
+  | _ => none
+
+/-- lookup number k sees the table after all events that happened before it -/
+def mkView (T0 : Table) (evs : List (Option Nat × Table)) : View := fun k =>
+  evs.foldl (fun acc e => match e.1 with
+    | some j => if j ≤ k then e.2 else acc
+    | none => acc) T0
+
+def parseSched (ws : List String) : Option (Data × View × List (Option Nat) × List String) := do
+  let (d, rest) ← parseData ws
+  let (T0, rest) ← parseTable rest
+  let (tabs, rest) ← parseEvents T0 rest
+  let (js, rest) ← parseAt tabs.length rest
+  pure (d, mkView T0 (js.zip tabs), js, rest)
+
+def parseMode (mode : String) : Option (KeyMode × Bool) :=
+  if mode = "ski" then some (.skiOnly, false) else if mode = "skias" then some (.skiAndAs, false)
+  else if mode = "ski+stop" then some (.skiOnly, true) else if mode = "skias+stop" then some (.skiAndAs, true)
+  else none
+
+/-- the decision of the model for a view and the oracle part `outs` of the request -/
+def modelAnswer? (m : KeyMode) (stop : Bool) (d : Data) (V : View) (outs : List String) : Option String :=
+  -- shapes the oracle cannot be laid out for are decided before any verification anyway
+  if d.sigs.length ≠ d.path.length ∨ d.sigs = [] ∨ d.alg ≠ 1 ∨ (d.nlri.afi ≠ 1 ∧ d.nlri.afi ≠ 2) then
+    some (validateFull (H := List Nat) id (fun _ _ _ => VRes.error) (fun _ => true) m stop d V).name
+  else match buildOracle d V outs with
+    | some (o, bad) => some (validateFull (H := List Nat) id (oracleVerify o) (fun sig => ! bad.contains sig) m stop d V).name
+    | none => none
 
 def step (_ : Unit) (line : String) : Unit × String :=
   let bad := ((), "bad-op")
@@ -190,20 +274,30 @@ def step (_ : Unit) (line : String) : Unit × String :=
     match parseData rest with
     | some (d, rest) => match parseTable rest with
       | some (T, "O" :: mode :: outs) =>
-        let m? : Option (KeyMode × Bool) :=
-          if mode = "ski" then some (.skiOnly, false) else if mode = "skias" then some (.skiAndAs, false)
-          else if mode = "ski+stop" then some (.skiOnly, true) else if mode = "skias+stop" then some (.skiAndAs, true)
-          else none
-        match m? with
+        match parseMode mode with
         | none => bad
         | some (m, stop) =>
-          -- shapes the oracle cannot be laid out for are decided before any verification anyway
-          if d.sigs.length ≠ d.path.length ∨ d.sigs = [] ∨ d.alg ≠ 1 ∨ (d.nlri.afi ≠ 1 ∧ d.nlri.afi ≠ 2) then
-            ((), (validate (H := List Nat) id (fun _ _ _ => VRes.error) m stop d T).name)
-          else match buildOracle d T outs with
-            | some o => ((), (validate (H := List Nat) id (oracleVerify o) m stop d T).name)
-            | none => bad
+          match modelAnswer? m stop d (fun _ => T) outs with
+          | some r => ((), r)
+          | none => bad
       | _ => bad
+    | none => bad
+  | "validate-sched" :: rest =>
+    match parseSched rest with
+    | some (d, V, js, "O" :: mode :: outs) =>
+      match parseMode mode with
+      | none => bad
+      | some (m, stop) =>
+        match modelAnswer? m stop d V outs with
+        | some r => ((), r ++ " " ++ " ".intercalate (js.map fun j => match j with | some j => toString j | none => "-"))
+        | none => bad
+    | _ => bad
+  | "queries-sched" :: rest =>
+    match parseSched rest with
+    | some (d, V, _, _) =>
+      if d.sigs.length ≠ d.path.length then bad else
+      ((), " ".intercalate ((hopQueriesV d V).map fun (i, dg, sig, keys) =>
+        s!"{i}/{bytesToHex dg}/{bytesToHex sig}/{",".intercalate (keys.map fun k => bytesToHex k.spki)}"))
     | none => bad
   | "validate-nonlri" :: rest =>
     match parseData rest with
